@@ -102,6 +102,20 @@ def trait_formula(M, L, counts, total_data):
     return size + total_data
 
 
+def args_representable(M, L, which, args):
+    from vlib.schemagen import prim_range
+    groups = preorder_groups(L)
+    if which == 0:
+        plist = groups
+    else:
+        g = groups[which - 1]
+        plist = [g] + preorder_groups(g)
+    for g, a in zip(plist, args):
+        if a > prim_range(M.member(g.dimension, "numInGroup").prim)[1]:
+            return False
+    return True
+
+
 def cursor_checkable(L):
     return any(not m.is_const for m in L.fields) or L.groups or L.data
 
@@ -175,7 +189,7 @@ def run(t, budget=1.0):
                                 {"cmd": line, "config": cfg, "expected": "OK trait=%d" % expv, "actual": resp},
                                 "[%s] message %s trait size_bytes(%s): expected %d, got %s" % (cfg, L.name, args, expv, resp[:100]))
             return
-        vals = data.draw(values.level_values(L, max_entries=3, inflate=False))
+        vals = data.draw(values.level_values(L, max_entries=3, inflate=False, model=M))
         img, size = M.encode_message(L, vals, background=data.draw(st.sampled_from([0, 0xFF, 0x77])))
         exp = expected_sizes(M, L, vals, size)
         nontrivial = (L.data or any(g.groups or g.data for g in L.groups)) and (values.count_entries(vals) > 0 or any(len(x) for x in vals["data"].values()))
@@ -205,6 +219,10 @@ def run(t, budget=1.0):
                         {"cmd": "sizes %d %s" % (mi, img.hex()), "config": cfg, "expected": " ".join(e2), "actual": resp, "values": values.tree_hash_key(vals)},
                         "[%s] message %s: %s" % (cfg, L.name, bad))
             for which, args, expv in tcs:
+                if not args_representable(M, L, which, args):
+                    # a total entry count that does not fit the (narrow) numInGroup parameter type cannot be passed to the trait
+                    res.cls("trait_args_not_representable")
+                    continue
                 line = "tsize %d %d %s" % (mi, which, " ".join(str(a) for a in args))
                 resp = pc.call(entry, cfg, line)
                 res.count()
